@@ -54,9 +54,22 @@ def meet(x, y):
     return (lo, hi)
 
 
-def widen(old, new):
-    lo = old[0] if (old[0] is not None and new[0] is not None and new[0] >= old[0]) else None
-    hi = old[1] if (old[1] is not None and new[1] is not None and new[1] <= old[1]) else None
+def widen(old, new, thresholds=()):
+    """widening with thresholds: an unstable bound jumps to the next constant of the function (0, 1, -1, limits ...)"""
+    if old[0] is not None and new[0] is not None and new[0] >= old[0]:
+        lo = old[0]
+    else:
+        lo = None
+        if new[0] is not None:
+            c = [t for t in thresholds if t <= new[0]]
+            lo = max(c) if c else None
+    if old[1] is not None and new[1] is not None and new[1] <= old[1]:
+        hi = old[1]
+    else:
+        hi = None
+        if new[1] is not None:
+            c = [t for t in thresholds if t >= new[1]]
+            hi = min(c) if c else None
     return (lo, hi)
 
 
@@ -124,12 +137,18 @@ def type_range(t, bw=None):
 
 
 class Intervals:
-    def __init__(self, fn, entry=None, call_ranges=None):
+    def __init__(self, fn, entry=None, call_ranges=None, ptr_keys=None, bounded_calls=None):
         self.fn = fn
         self.tu = fn.tu
+        self.ptr_keys = set(ptr_keys or ())      # char pointers modelled as byte offsets from a common base
+        self.zero_keys = set()                   # keys known to be the constant 0 throughout (the base pointer itself)
+        self.rel_calls = {}                      # callee -> (arg index, c): result <= that argument + c
+        self.bounded_calls = bounded_calls or {} # callee -> index of its size argument (result <= that argument)
         self.entry = entry or {}          # var key -> interval at function entry
         self.call_ranges = call_ranges or {}   # callee name -> interval of its result
         self.instate = {}
+        self.thresholds = ()
+        self.discriminators = []
         self.node_state = {}              # node id -> state before the node (filled by annotate())
 
     # ---- keys
@@ -142,7 +161,7 @@ class Intervals:
             return None
         if n0.get("k") == "DeclRefExpr" and n0.get("dk") in ("var", "parm"):
             t = self.tu.types[n0["t"]]
-            if t.get("int"):
+            if t.get("int") or n0["d"] in self.ptr_keys:
                 return n0["d"]
             return None
         if n0.get("k") == "MemberExpr":
@@ -201,13 +220,43 @@ class Intervals:
             if op == "+":
                 return v
             if op == "!":
+                if v == (0, 0):
+                    return (1, 1)
+                if (v[0] is not None and v[0] > 0) or (v[1] is not None and v[1] < 0):
+                    return (0, 0)
                 return (0, 1)
             if op == "~":
                 return (None, None)
             return (None, None)
         if k == "BinaryOperator":
             op = n.get("op")
-            if op in ("==", "!=", "<", ">", "<=", ">=", "&&", "||"):
+            if op in ("&&", "||"):
+                a, b = self.eval(n["c"][0], st), self.eval(n["c"][1], st)
+                fa, fb = a == (0, 0), b == (0, 0)
+                ta = (a[0] is not None and a[0] > 0) or (a[1] is not None and a[1] < 0)
+                tb = (b[0] is not None and b[0] > 0) or (b[1] is not None and b[1] < 0)
+                if op == "&&":
+                    if fa or fb:
+                        return (0, 0)
+                    if ta and tb:
+                        return (1, 1)
+                else:
+                    if ta or tb:
+                        return (1, 1)
+                    if fa and fb:
+                        return (0, 0)
+                return (0, 1)
+            if op in ("==", "!=", "<", ">", "<=", ">="):
+                if self._null_test(n):
+                    return (0, 1)
+                a, b = self.eval(n["c"][0], st), self.eval(n["c"][1], st)
+                na, nb = self._apply_rel(op, a, b)
+                if na == "bot" or nb == "bot":
+                    return (0, 0)
+                neg_op = {"==": "!=", "!=": "==", "<": ">=", ">=": "<", ">": "<=", "<=": ">"}[op]
+                xa, xb = self._apply_rel(neg_op, a, b)
+                if xa == "bot" or xb == "bot":
+                    return (1, 1)
                 return (0, 1)
             if op == ",":
                 return self.eval(n["c"][1], st)
@@ -262,9 +311,141 @@ class Intervals:
         t = self.tu.types[n["t"]] if n.get("t") is not None else None
         return type_range(t)
 
+    # ---- relational facts  x <= y + c  (kept while neither side is assigned)
+    def _kill_rels(self, st, key):
+        for kk in [z for z in st if isinstance(z, tuple) and len(z) == 3 and z[0] == "rel" and (z[1] == key or z[2] == key)]:
+            del st[kk]
+
+    def rel(self, st, kx, ky):
+        """smallest derivable c with x <= y + c, or None: shortest path over the stored difference constraints,
+        combined with what the intervals imply (x <= hi(x), y >= lo(y))"""
+        if kx is None or ky is None:
+            return None
+        if kx == ky:
+            return 0
+        edges = {}
+        for z, c in st.items():
+            if isinstance(z, tuple) and len(z) == 3 and z[0] == "rel":
+                edges.setdefault(z[1], []).append((z[2], c))
+        dist = {kx: 0}
+        frontier = [kx]
+        for _ in range(8):
+            nxt = []
+            for u in frontier:
+                for v, c in edges.get(u, ()):
+                    d = dist[u] + c
+                    if v not in dist or d < dist[v]:
+                        dist[v] = d
+                        nxt.append(v)
+            if not nxt:
+                break
+            frontier = nxt
+        best = dist.get(ky)
+        # via constants: u <= hi(u) and ky >= lo(ky)  ->  x <= ky + dist[u] + hi(u) - lo(ky)
+        lo_y = (0, 0) if ky in self.zero_keys else st.get(ky)
+        if lo_y is not None and lo_y[0] is not None:
+            for u, du in dist.items():
+                iu = (0, 0) if u in self.zero_keys else st.get(u)
+                if iu is not None and iu[1] is not None:
+                    cand = du + iu[1] - lo_y[0]
+                    if best is None or cand < best:
+                        best = cand
+        return best
+
+    def _set_rel(self, st, kx, ky, c, close=True):
+        if kx is None or ky is None or kx == ky:
+            return
+        old = st.get(("rel", kx, ky))
+        if old is not None and old <= c:
+            return
+        st[("rel", kx, ky)] = c
+        if close:
+            # x <= y + c and y <= z + d  ->  x <= z + c + d ;  w <= x + e  ->  w <= y + e + c
+            for z in list(st):
+                if isinstance(z, tuple) and len(z) == 3 and z[0] == "rel":
+                    if z[1] == ky and z[2] != kx:
+                        self._set_rel(st, kx, z[2], c + st[z], close=False)
+                    elif z[2] == kx and z[1] != ky:
+                        self._set_rel(st, z[1], ky, st[z] + c, close=False)
+
+    def _linear(self, e):
+        """expression -> (key, const) for `v`, `v + c`, `v - c`; (None, c) for constants; else None"""
+        e = strip_casts(e)
+        if e is None:
+            return None
+        c = const_of(e)
+        if c is not None and e.get("k") != "DeclRefExpr":
+            return (None, c)
+        k = self.key_of(e)
+        if k is not None:
+            return (k, 0)
+        if e.get("k") == "UnaryOperator" and e.get("op") in ("++", "--"):
+            k = self.key_of(e["c"][0])
+            if k is not None:
+                # CFG order: the inc/dec element has been applied before its parent is evaluated
+                d = 1 if e["op"] == "++" else -1
+                return (k, -d if e.get("postfix") else 0)
+        if e.get("k") == "BinaryOperator" and e.get("op") in ("+", "-"):
+            a, b = self._linear(e["c"][0]), self._linear(e["c"][1])
+            if a is not None and a[0] in self.zero_keys:
+                a = (None, a[1])
+            if b is not None and b[0] in self.zero_keys:
+                b = (None, b[1])
+            if a is not None and b is not None and a[0] is None and b[0] is not None and e["op"] == "+":
+                return (b[0], a[1] + b[1])
+            if a is not None and b is not None:
+                if b[0] is None:
+                    return (a[0], a[1] + (b[1] if e["op"] == "+" else -b[1]))
+                if a[0] is None and e["op"] == "+":
+                    return (b[0], a[1] + b[1])
+        return None
+
+    def _null_test(self, n):
+        """pointer compared with the null constant: pointers are modelled as offsets, NULL is not offset 0"""
+        for x, y in ((n["c"][0], n["c"][1]), (n["c"][1], n["c"][0])):
+            xs = strip_casts(x)
+            t = self.tu.types[xs["t"]] if xs is not None and xs.get("t") is not None else {}
+            if t.get("ptr") and const_of(y) == 0:
+                return True
+        return False
+
     # ---- transfer
-    def _assign(self, lhs, val, st):
+    def _assign(self, lhs, val, st, rhs=None):
         k = self.key_of(lhs)
+        if k is not None:
+            old_rels = {z: st[z] for z in st if isinstance(z, tuple) and len(z) == 3 and z[0] == "rel" and (z[1] == k or z[2] == k)}
+            self._kill_rels(st, k)
+            if rhs is not None:
+                r0 = strip(rhs)
+                if r0 is not None and r0.get("k") == "BinaryOperator" and r0.get("op") == "+":
+                    # base + f(...): the base pointer is offset 0
+                    for a_, b_ in ((r0["c"][0], r0["c"][1]), (r0["c"][1], r0["c"][0])):
+                        if self.key_of(a_) in self.zero_keys and self.key_of(a_) is not None:
+                            r0 = strip(b_)
+                            break
+                if r0 is not None and r0.get("k") == "CallExpr" and r0.get("callee") in self.rel_calls:
+                    ai, c0 = self.rel_calls[r0["callee"]]
+                    args = call_args(r0)
+                    if ai < len(args):
+                        la = self._linear(args[ai])
+                        if la is not None and la[0] is not None and la[0] != k:
+                            self._set_rel(st, k, la[0], la[1] + c0)
+                lin = self._linear(rhs)
+                if lin is not None and lin[0] is not None:
+                    if lin[0] != k:
+                        self._set_rel(st, k, lin[0], lin[1])       # x = y + c  ->  x <= y + c and y <= x - c
+                        self._set_rel(st, lin[0], k, -lin[1])
+                        # transitivity through y's relations: y <= z + d  ->  x <= z + c + d
+                        for z in list(st):
+                            if isinstance(z, tuple) and len(z) == 3 and z[0] == "rel" and z[1] == lin[0] and z[2] != k:
+                                self._set_rel(st, k, z[2], lin[1] + st[z])
+                    else:
+                        # x = x + c: shift existing relations
+                        for z, c0 in old_rels.items():
+                            if z[1] == k:
+                                st[z] = c0 + lin[1]
+                            else:
+                                st[z] = c0 - lin[1]
         l0 = lhs
         while l0 is not None and l0.get("k") in CASTS and l0.get("c"):
             l0 = l0["c"][0]
@@ -295,32 +476,95 @@ class Intervals:
 
     def transfer(self, n, st):
         k = n.get("k")
-        if k == "BinaryOperator" and n.get("op") == "=":
-            self._assign(n["c"][0], self.eval(n["c"][1], st), st)
+        if k == "BinaryOperator" and n.get("op") == "=" and strip(n["c"][1]) is not None and strip(n["c"][1]).get("k") == "ConditionalOperator":
+            # x = c ? a : b  is analysed as the two assignments under c / !c, joined
+            co = strip(n["c"][1])
+            outs = []
+            for pol, val in ((True, co["c"][1]), (False, co["c"][2])):
+                s2 = self.refine(co["c"][0], pol, dict(st))
+                if s2 is None:
+                    continue
+                self._assign(n["c"][0], self.eval(val, s2), s2, rhs=val)
+                outs.append(s2)
+            if outs:
+                res = outs[0]
+                for o in outs[1:]:
+                    res = {kk: (max(res[kk], o[kk]) if (isinstance(kk, tuple) and len(kk) == 3 and kk[0] == "rel") else join(res[kk], o[kk]))
+                           for kk in set(res) & set(o)}
+                st.clear()
+                st.update(res)
+        elif k == "BinaryOperator" and n.get("op") == "=":
+            self._assign(n["c"][0], self.eval(n["c"][1], st), st, rhs=n["c"][1])
         elif k == "CompoundAssignOperator":
             op = n.get("op", "")[:-1]
             a = self._range_of_lvalue(n["c"][0], st)
             b = self.eval(n["c"][1], st)
             r = {"+": add, "-": sub, "*": mul, "/": div, "%": mod}.get(op)
+            key = self.key_of(n["c"][0])
+            shift = None
+            if op in ("+", "-") and b[0] is not None and b[0] == b[1]:
+                shift = b[0] if op == "+" else -b[0]
+            rels = {z: st[z] for z in st if isinstance(z, tuple) and len(z) == 3 and z[0] == "rel" and key in (z[1], z[2])} if key is not None else {}
             self._assign(n["c"][0], r(a, b) if r else (None, None), st)
+            if shift is not None:
+                for z, c0 in rels.items():
+                    st[z] = c0 + shift if z[1] == key else c0 - shift
+            elif op == "+" and b[0] is not None and b[0] >= 0 and b[1] is not None:
+                # x += [0..m]: x <= y + c becomes x <= y + c + m; y <= x + c stays
+                for z, c0 in rels.items():
+                    st[z] = c0 + b[1] if z[1] == key else c0
+            if op == "+" and key is not None:
+                r0 = strip(n["c"][1])
+                if r0 is not None and r0.get("k") == "CallExpr" and r0.get("callee") in self.bounded_calls:
+                    si = self.bounded_calls[r0["callee"]]
+                    args = call_args(r0)
+                    if si < len(args):
+                        sz = strip_casts(args[si])
+                        if sz is not None and sz.get("k") == "BinaryOperator" and sz.get("op") == "-":
+                            kx, ky = self.key_of(sz["c"][0]), self.key_of(sz["c"][1])
+                            if ky == key and kx is not None:
+                                # result <= X - x_old  ->  x_new = x_old + result <= X ; relations of X carry over
+                                self._set_rel(st, key, kx, 0)
+                                for z in list(st):
+                                    if isinstance(z, tuple) and len(z) == 3 and z[0] == "rel" and z[1] == kx and z[2] != key:
+                                        self._set_rel(st, key, z[2], st[z])
         elif k == "UnaryOperator" and n.get("op") in ("++", "--"):
             a = self._range_of_lvalue(n["c"][0], st)
-            self._assign(n["c"][0], add(a, (1, 1)) if n["op"] == "++" else sub(a, (1, 1)), st)
-        elif k == "DeclStmt":
-            for v in kids(n):
+            key = self.key_of(n["c"][0])
+            rels = {z: st[z] for z in st if isinstance(z, tuple) and len(z) == 3 and z[0] == "rel" and key in (z[1], z[2])} if key is not None else {}
+            d = 1 if n["op"] == "++" else -1
+            self._assign(n["c"][0], add(a, (d, d)), st)
+            for z, c0 in rels.items():
+                st[z] = c0 + d if z[1] == key else c0 - d
+        elif k in ("DeclStmt", "Var"):
+            for v in ([n] if k == "Var" else kids(n)):
                 if v.get("k") != "Var":
                     continue
                 t = self.tu.types[v["t"]]
-                if t.get("int"):
+                if t.get("int") or v["d"] in self.ptr_keys:
                     if kids(v):
                         val = self.eval(kids(v)[0], st)
-                        tr = type_range(t)
+                        tr = type_range(t) if t.get("int") else (None, None)
                         if tr != (None, None) and not (val[0] is not None and val[1] is not None and tr[0] <= val[0] and val[1] <= tr[1]):
                             m = meet(val, tr)
                             val = tr if (m == "bot" or not t.get("sg")) else m
+                        self._kill_rels(st, v["d"])
                         st[v["d"]] = val
+                        lin = self._linear(kids(v)[0])
+                        if lin is not None and lin[0] is not None:
+                            self._set_rel(st, v["d"], lin[0], lin[1])
+                            self._set_rel(st, lin[0], v["d"], -lin[1])
+                        r0 = strip(kids(v)[0])
+                        if r0 is not None and r0.get("k") == "CallExpr" and r0.get("callee") in self.rel_calls:
+                            ai, c0 = self.rel_calls[r0["callee"]]
+                            args = call_args(r0)
+                            if ai < len(args):
+                                la = self._linear(args[ai])
+                                if la is not None and la[0] is not None:
+                                    self._set_rel(st, v["d"], la[0], la[1] + c0)
                     else:
                         st.pop(v["d"], None)
+                        self._kill_rels(st, v["d"])
                 else:
                     for kk in [x for x in st if isinstance(x, tuple) and x[0] == v["d"]]:
                         del st[kk]
@@ -369,8 +613,13 @@ class Intervals:
                 return a
             out = {}
             for kk in set(a) & set(b):
-                out[kk] = join(a[kk], b[kk])
+                if isinstance(kk, tuple) and len(kk) == 3 and kk[0] == "rel":
+                    out[kk] = max(a[kk], b[kk])
+                else:
+                    out[kk] = join(a[kk], b[kk])
             return out
+        if k == "BinaryOperator" and c.get("op") in ("==", "!=", "<", ">", "<=", ">=") and self._null_test(c):
+            return st
         if k == "BinaryOperator" and c.get("op") in ("==", "!=", "<", ">", "<=", ">="):
             op = c["op"]
             if not pol:
@@ -390,8 +639,25 @@ class Intervals:
                 st[ka] = na
             if kb is not None:
                 st[kb] = nb
+            la, lb = self._linear(l), self._linear(r)
+            if la is not None and lb is not None and la[0] is not None and lb[0] is not None:
+                # (x + a) op (y + b)
+                d = lb[1] - la[1]
+                if op == "<":
+                    self._set_rel(st, la[0], lb[0], d - 1)
+                elif op == "<=":
+                    self._set_rel(st, la[0], lb[0], d)
+                elif op == ">":
+                    self._set_rel(st, lb[0], la[0], -d - 1)
+                elif op == ">=":
+                    self._set_rel(st, lb[0], la[0], -d)
+                elif op == "==":
+                    self._set_rel(st, la[0], lb[0], d)
+                    self._set_rel(st, lb[0], la[0], -d)
             return st
         # plain truth test
+        if c.get("k") == "UnaryOperator" and c.get("op") in ("++", "--") and not c.get("postfix"):
+            c = strip(c["c"][0])      # value of ++x is the (already updated) x
         key = self.key_of(strip_casts(c)) if c.get("k") in ("DeclRefExpr", "MemberExpr") or c.get("k") in CASTS else None
         if key is not None:
             v = self.eval(c, st)
@@ -440,65 +706,124 @@ class Intervals:
             return na, nb
         return a, b
 
+    def _complete_rels(self, a, b):
+        """rel facts known on one side only: derive the bound the other side's intervals imply"""
+        for src, dst in ((a, b), (b, a)):
+            for kk in src:
+                if isinstance(kk, tuple) and len(kk) == 3 and kk[0] == "rel" and kk not in dst:
+                    c = self.rel(dst, kk[1], kk[2])
+                    if c is not None:
+                        dst[kk] = c
+
     # ---- driver
+    MAXDISJ = 6
+
+    def _join_states(self, a, b, widen_it=False):
+        a, b = dict(a), dict(b)
+        self._complete_rels(a, b)
+        new = {}
+        for kk in set(a) & set(b):
+            if isinstance(kk, tuple) and len(kk) == 3 and kk[0] == "rel":
+                j = max(a[kk], b[kk])
+                if widen_it and j != a[kk]:
+                    # widening of a difference bound: jump to the next of -1, 0, 1 (the bounds loops establish), else drop
+                    cand = [t for t in (-1, 0, 1) if t >= j]
+                    if not cand:
+                        continue
+                    j = cand[0]
+                new[kk] = j
+                continue
+            j = join(a[kk], b[kk])
+            if widen_it and j != a[kk]:
+                j = widen(a[kk], j, self.thresholds)
+            if j != (None, None):
+                new[kk] = j
+        return new
+
+    def _leq(self, a, b):
+        """state a is included in state b (b is weaker or equal)"""
+        for kk, vb in b.items():
+            if isinstance(kk, tuple) and len(kk) == 3 and kk[0] == "rel":
+                va = self.rel(a, kk[1], kk[2])
+                if va is None or va > vb:
+                    return False
+                continue
+            va = a.get(kk)
+            if va is None:
+                return False
+            if vb[0] is not None and (va[0] is None or va[0] < vb[0]):
+                return False
+            if vb[1] is not None and (va[1] is None or va[1] > vb[1]):
+                return False
+        return True
+
+    def _signature(self, st):
+        sig = []
+        for d in self.discriminators:
+            v = st.get(d)
+            if v is None:
+                sig.append("?")
+            elif v == (0, 0):
+                sig.append("Z")
+            elif (v[0] is not None and v[0] > 0) or (v[1] is not None and v[1] < 0):
+                sig.append("N")
+            else:
+                sig.append("?")
+        return tuple(sig)
+
     def run(self):
+        """trace-partitioned interval analysis: states are partitioned by the zero/non-zero status of the function's
+        switch operands (its main discriminators); one state per (block, partition), joined and widened inside"""
         fn = self.fn
         cfg = fn.cfg
         if cfg is None:
             raise AnalysisBroken("no CFG for %s" % fn.name)
-        nodes = fn.nodes
-        instate = {cfg.entry: dict(self.entry)}
+        ths = {0, 1, -1}
+        for n in fn.walk():
+            c = const_of(n)
+            if c is not None and -(1 << 40) < c < (1 << 40):
+                ths.update((c, c - 1, c + 1))
+        for v in self.entry.values():
+            for x in v:
+                if x is not None:
+                    ths.add(x)
+        self.thresholds = sorted(ths)
+        # discriminators: operands of switches with the most cases, plus keys tested `== 0`-like right before them
+        cand = {}
+        for sw in fn.switches():
+            k = self.key_of(strip_casts(sw["c"][0])) if sw.get("c") else None
+            if k is not None:
+                ncase = sum(1 for x in walk(sw["c"][1]) if x.get("k") == "CaseStmt") if len(sw["c"]) > 1 else 0
+                cand[k] = max(cand.get(k, 0), ncase)
+        self.discriminators = [k for k, _ in sorted(cand.items(), key=lambda kv: -kv[1])[:2]]
+        instate = {cfg.entry: {self._signature(self.entry): dict(self.entry)}}
         visits = {}
-        work = [cfg.entry]
+        work = [(cfg.entry, self._signature(self.entry))]
         rounds = 0
         while work:
-            b = work.pop()
+            b, sig = work.pop()
+            cur = instate.get(b, {}).get(sig)
+            if cur is None:
+                continue
             rounds += 1
-            if rounds > 50000:
+            if rounds > 200000:
                 raise AnalysisBroken("interval analysis of %s does not converge" % fn.name)
-            for s, ns in self._step(b, dict(instate[b])):
-                if s not in instate:
-                    instate[s] = ns
-                    work.append(s)
+            for s, ns in self._step(b, dict(cur)):
+                sg = self._signature(ns)
+                part = instate.setdefault(s, {})
+                old = part.get(sg)
+                if old is None:
+                    part[sg] = ns
+                    work.append((s, sg))
                     continue
-                old = instate[s]
-                visits[s] = visits.get(s, 0) + 1
-                new = {}
-                for kk in set(old) & set(ns):
-                    j = join(old[kk], ns[kk])
-                    if visits[s] > WIDEN_AFTER and j != old[kk]:
-                        j = widen(old[kk], j)
-                    if j != (None, None):
-                        new[kk] = j
-                if new != old:
-                    instate[s] = new
-                    work.append(s)
-        # one narrowing sweep: recompute block inputs from predecessors' outputs without widening
-        for _ in range(2):
-            outs = {}
-            for b in instate:
-                for s, ns in self._step(b, dict(instate[b])):
-                    outs.setdefault(s, []).append(ns)
-            for s, lst in outs.items():
-                if s == cfg.entry or s not in instate:
+                if self._leq(ns, old):
                     continue
-                new = None
-                for ns in lst:
-                    if new is None:
-                        new = dict(ns)
-                    else:
-                        new = {kk: join(new[kk], ns[kk]) for kk in set(new) & set(ns)}
-                # keep it at least as precise as before but never less sound: meet with the widened state
-                old = instate[s]
-                ref = {}
-                for kk, v in new.items():
-                    if kk in old:
-                        m = meet(old[kk], v)
-                        ref[kk] = v if m == "bot" else m
-                    else:
-                        ref[kk] = v
-                instate[s] = ref
-        self.instate = instate
+                visits[(s, sg)] = visits.get((s, sg), 0) + 1
+                merged = self._join_states(old, ns, widen_it=visits[(s, sg)] > WIDEN_AFTER)
+                if merged != old:
+                    part[sg] = merged
+                    work.append((s, sg))
+        self.instate = {b: list(p.values()) for b, p in instate.items()}
         return self
 
     def _step(self, b, st):
@@ -544,34 +869,50 @@ class Intervals:
                     outs.append((s, dict(st)))
         return outs
 
-    def state_at(self, node):
-        """state just before `node` is evaluated (node must be a CFG element)"""
+    def states_at(self, node):
+        """the disjunctive states just before `node` is evaluated (node must be a CFG element); [] if unreachable"""
         cfg = self.fn.cfg
         sb = cfg.stmt_block(node["i"]) if "i" in node else None
-        if sb is None or sb[0] not in self.instate:
+        if sb is None:
             return None
         b, idx = sb
-        st = dict(self.instate[b])
+        out = []
         nodes = self.fn.nodes
-        for e in cfg.blocks[b]["e"][:idx]:
-            n = nodes.get(e)
-            if n is not None:
-                self.transfer(n, st)
-        return st
+        for st0 in self.instate.get(b, []):
+            st = dict(st0)
+            for e in cfg.blocks[b]["e"][:idx]:
+                n = nodes.get(e)
+                if n is not None:
+                    self.transfer(n, st)
+            out.append(st)
+        return out
+
+    def state_at(self, node):
+        """join of the disjuncts (for clients that want one interval)"""
+        sts = self.states_at(node)
+        if not sts:
+            return None
+        res = sts[0]
+        for o in sts[1:]:
+            res = self._join_states(res, o)
+        return res
 
     def range_at(self, node, expr=None):
         """interval of `expr` (default: node itself) in the state before `node`; None if node unreachable"""
-        st = self.state_at(node)
-        if st is None:
-            # climb to an ancestor that is a CFG element
+        sts = self.states_at(node)
+        if sts is None:
             cur = self.fn.parent(node)
-            while cur is not None and st is None:
+            while cur is not None and sts is None:
                 if "i" in cur:
-                    st = self.state_at(cur)
+                    sts = self.states_at(cur)
                 cur = self.fn.parent(cur)
-            if st is None:
-                return None
-        return self.eval(expr if expr is not None else node, st)
+        if not sts:
+            return None
+        r = None
+        for st in sts:
+            v = self.eval(expr if expr is not None else node, st)
+            r = v if r is None else join(r, v)
+        return r
 
 
 def strip_casts(n):
